@@ -9,7 +9,7 @@ from verifkit import read_lines, sh, go_env, VERIF, REPO, LEAN
 GEN = os.path.join(LEAN, "DaeVerif", "C19", "Gen")
 
 REQUIRED = [
-    "DaeVerif.C19.Props.layouts_agree",
+    "DaeVerif.C19.Props.layouts_agree_partial",
     "DaeVerif.C19.Props.paired_fields_decode_equal",
     "DaeVerif.C19.Props.pairOk_sound",
     "DaeVerif.C19.Props.every_go_type_classified",
